@@ -190,7 +190,7 @@ class CppEval:
         if e[0] == "init" and len(e[2]) == 2:
             out = {}
             for name, part in zip(("state", "covariance"), e[2]):
-                p = self.deref(part)
+                p = part
                 v = self.env.get(p[1]) if p[0] == "ref" else None
                 if isinstance(v, dict):
                     out[name] = v.get("data") if "data" in v else v.get("__origin__")
